@@ -35,6 +35,10 @@ SHAPES = {
     "UCISD": CI_CLOSED[:3] + CI_OPEN_DN1,
     "GCISD": [s for s in CI_CLOSED[:2] + CI_OPEN_DN1 if s[0] <= 3] + [(4, (2, 1))],
 }
+# thorough tier: a few norb = 5 shapes (Fock dimension 1024) for the kinds whose compilation stays cheap
+for _k, _extra in {"rhf": [(5, (2, 2)), (5, (3, 3))], "uhf": [(5, (3, 2)), (5, (2, 1))], "ghf": [(5, (2, 1))], "noci": [(5, (3, 2))],
+                   "multislater": [(5, (2, 2))], "cisd": [(5, (2, 2))], "CISD": [(5, (2, 2))], "ucisd": [(5, (3, 2))], "UCISD": [(5, (2, 1))]}.items():
+    SHAPES[_k] = SHAPES[_k] + _extra
 QUICK_SHAPES = {
     "rhf": [(2, (1, 1)), (3, (2, 2)), (4, (2, 2))],
     "uhf": [(3, (2, 1)), (4, (2, 2)), (3, (2, 0)), (4, (3, 1))],
